@@ -1,4 +1,5 @@
 import ConjureVerif.Lemmas.WrapUnknown
+import ConjureVerif.Lemmas.WrapAfter
 import ConjureVerif.Gen.UnknownFieldsSrc
 import ConjureVerif.Gen.JsonDeServerSrc
 import ConjureVerif.Gen.SmileDeServerSrc
@@ -103,6 +104,32 @@ theorem C05_client_ignores_many (fmt : Fmt) (t : Ty) (d d' : Doc) (ks : List (Li
   induction h with
   | zero => rfl
   | step d1 d2 ks k _ hi ih => rw [cli fmt hi, ih]
+
+/-- **servers reject, any number of unknown members**: a document the server accepts, given one or more extra
+undeclared members anywhere (one after another, at any depths), is rejected with an error naming one of them — the
+one the reader meets first -/
+theorem C05_server_rejects_many (fmt : Fmt) (t : Ty) (d d' : Doc) (ks : List (List Nat)) (v : Val)
+    (hok : de fmt .server t d = .ok v) (h : InjectN t d d' ks) (hne : ks ≠ []) :
+    ∃ k ∈ ks, de fmt .server t d' = .error (.unknownField k) := by
+  induction h with
+  | zero => exact absurd rfl hne
+  | step d1 d2 ks k hn hi ih =>
+    cases ks with
+    | nil =>
+      cases hn
+      exact ⟨k, by simp, (srvA fmt hi).of_ok hok⟩
+    | cons k0 ks0 =>
+      obtain ⟨k', hk', he⟩ := ih (by simp)
+      rcases srvA fmt hi with h | ⟨e, h1, h2⟩
+      · exact ⟨k, by simp, h⟩
+      · rw [he] at h1; cases h1
+        exact ⟨k', List.mem_cons_of_mem _ hk', h2⟩
+
+/-- **and whatever the server made of the document before**: an extra undeclared member never turns a rejection into
+an acceptance, nor one error into an unrelated one -/
+theorem C05_server_never_accepts_more (fmt : Fmt) (t : Ty) (d d' : Doc) (k : List Nat) (hinj : Inject t d d' k) :
+    de fmt .server t d' = .error (.unknownField k) ∨ ∃ e, de fmt .server t d = .error e ∧ de fmt .server t d' = .error e :=
+  srvA fmt hinj
 
 /-- the round trip of C01 composed with injection: what a server wrote, plus unknown members, is
     still read by a client as the original value -/
